@@ -726,6 +726,8 @@ func (m *Model) ruleCAS(r *Results) {
 				// build the cut: pass edges and exempt edges
 				c := newCut()
 				c0 := newCut() // the same decisions under the assumption "expected CAS == 0 was supplied"
+				cA := newCut() // ... under the assumption "the insert-only flag is set (and no other option bit)"
+				nA := 0
 				var sinks, problems []string
 				for _, d := range m.decisions(K, fr) {
 					cd := d.C
@@ -796,6 +798,10 @@ func (m *Model) ruleCAS(r *Results) {
 							if cst, ok := bo.Y.(*ssa.Const); ok && cst.Value != nil && constant.Compare(cst.Value, token.EQL, addOnly) {
 								// the edge where the AddOnly bit is SET is the non-equal edge
 								d.cutNotEqual(c)
+								d.cutEqual(cA)
+								nA++
+							} else if ok && cst.Value != nil {
+								d.cutNotEqual(cA) // some other option bit: assumed clear
 							}
 						}
 						continue
@@ -830,6 +836,27 @@ func (m *Model) ruleCAS(r *Results) {
 				if wp.site.Fn == K {
 					if shapes := m.sqlZeroCasUnguarded(wp.site, K, c0, isP); len(shapes) > 0 {
 						r.bad(rule, key+" / expected CAS 0", pos, "when the caller supplies the expected CAS 0 (\"the document must not exist\") the statement %s can run: it has neither a conjunct cas = <expected> nor a guard admitting only rows without a body, so it modifies a live document instead of failing with a CAS mismatch", strings.Join(shapes, " | "))
+					}
+				}
+				// with the insert-only flag set, no statement that replaces the body of a row WITH a body can run
+				if wp.site.Fn == K && nA > 0 {
+					for _, st := range m.sqlLiveStmts(wp.site, K, cA) {
+						w := writeInfo(st)
+						if st.Kind != sqlp.SUpdate || w == nil || w.Update == nil {
+							continue
+						}
+						if _, setsBody := w.Update["value"]; !setsBody {
+							continue
+						}
+						guarded := false
+						for _, cj := range w.Where {
+							if noBodyTest(cj) {
+								guarded = true
+							}
+						}
+						if !guarded {
+							r.bad(rule, key+" / insert-only flag", pos, "with the insert-only option set the statement %s can run: it is a plain UPDATE without a guard admitting only rows without a body, so an insert-only write replaces a live document (when its CAS happens to match) instead of being refused", st.Shape())
+						}
 					}
 				}
 				reachWrite := entryReach(K, c)[wp.instr.Block().Index]
@@ -1557,6 +1584,105 @@ func (m *Model) ruleRMW(r *Results) {
 		r.check(wrapped == "", rule, "CAS-mismatch error is returned unwrapped", "-", "no CasMismatchErr is wrapped by fmt.Errorf (the retry loops recognise it by type assertion)", "a CasMismatchErr is wrapped with fmt.Errorf at "+wrapped+" while the retry loops test `err.(CasMismatchErr)`: a lost race is then reported to the caller as a failure instead of being retried")
 	}
 	// (d) UpdateFunc contract (sg-bucket): "updated == nil and !delete" means "leave the body alone", so the
+	// a failed write-back is never reported as success: from the edge on which the write-back's
+	// error is non-nil, every return reached before the next read either returns that error or is
+	// a must-fail return (turning "the document vanished meanwhile" into `return 0, nil` tells the
+	// caller its update was stored)
+	for _, lp := range loops {
+		fn := lp.Fn
+		if lp.Outer != nil {
+			continue
+		}
+		for _, w := range lp.Writes {
+			site := w
+			if v, ok := lp.Via[w]; ok {
+				site = v
+			}
+			if site.Parent() != fn {
+				continue
+			}
+			errV := writeErrValue(site)
+			if errV == nil {
+				continue
+			}
+			// values the error is copied to (a named result, a phi at a join)
+			isErr := func(v ssa.Value) bool {
+				v = stripConv(v)
+				if v == errV {
+					return true
+				}
+				if phi, ok := v.(*ssa.Phi); ok {
+					for _, e := range phi.Edges {
+						if stripConv(e) == errV {
+							return true
+						}
+					}
+				}
+				return false
+			}
+			c := newCut()
+			for _, rd := range lp.Reads {
+				c.cutBlock(rd.Block())
+			}
+			bad := ""
+			for _, iff := range allIfs(fn) {
+				cd := condOf(iff)
+				eq, ok := cd.equalEdge()
+				if !ok || !(isNilConst(cd.X) || isNilConst(cd.Y)) {
+					continue
+				}
+				other := cd.X
+				if isNilConst(cd.X) {
+					other = cd.Y
+				}
+				if !isErr(other) {
+					continue
+				}
+				for _, sc := range iff.Block().Succs {
+					if sc == eq || c.blocks[sc.Index] {
+						continue
+					}
+					reach := reachableFrom(sc, c)
+					for _, ret := range returnsOf(fn) {
+						if !reach[ret.Block().Index] || len(ret.Results) == 0 {
+							continue
+						}
+						ev := ret.Results[len(ret.Results)-1]
+						// a named result captured by a deferred closure is returned through its cell:
+						// what the return statement stored there
+						if ld, ok := ev.(*ssa.UnOp); ok && ld.Op == token.MUL {
+							if al, ok := ld.X.(*ssa.Alloc); ok {
+								instrs := ret.Block().Instrs
+								for i := len(instrs) - 1; i >= 0; i-- {
+									if st, ok := instrs[i].(*ssa.Store); ok && st.Addr == ssa.Value(al) {
+										ev = st.Val
+										break
+									}
+								}
+							}
+						}
+						if isErr(ev) || m.mustBeFailureReturn(ret) {
+							continue
+						}
+						if mi, ok := ev.(*ssa.MakeInterface); ok && mi != nil {
+							continue // a freshly made error value
+						}
+						bad = m.instrPos(ret)
+					}
+				}
+			}
+			callee := site.Common().StaticCallee()
+			cname := "?"
+			if callee != nil {
+				cname = callee.Name()
+			}
+			pos := m.instrPos(site)
+			if bad != "" {
+				pos = bad
+			}
+			r.check(bad == "", rule, m.declName(lp.nameFn())+" / a failed write-back via "+cname+" is not reported as success", pos, "from the write-back's error edge only failing returns (or the next attempt) are reachable", "from the edge on which the write-back failed a return is reachable that does not report that error (e.g. `return 0, nil` for 'the document vanished meanwhile'): the caller is told the update was stored although it is in no version of the document")
+		}
+	}
 	// a retry loop that gives up (a bounded number of attempts) reports an error: the return
 	// reached through the loop counter's exit edge is a failure return. A bare `return 0, err`
 	// there returns whatever the named result last held - nil after a successful read - so the
@@ -2297,6 +2423,50 @@ func (m *Model) isDocWriter(f *ssa.Function) bool {
 // sqlZeroCasUnguarded: with the CFG restricted to "expected CAS == 0 was supplied", which
 // UPDATE statement texts can still reach the site without a conjunct cas = <expected> and
 // without a guard that admits only rows without a body? (INSERTs are governed by R-INSERT-GUARD.)
+// sqlLiveStmts: the statement variants of site s that can still be executed in K once the edges
+// of cut c0 are removed (the text is re-folded over the cut CFG).
+func (m *Model) sqlLiveStmts(s *SQLSite, K *ssa.Function, c0 *cut) []*sqlp.Stmt {
+	q := s.textArg()
+	reach := entryReach(K, c0)
+	if !reach[s.Call.Block().Index] {
+		return nil
+	}
+	ev := newStrEval(m)
+	ev.liveEdge = func(pred, blk *ssa.BasicBlock, fr *frame) bool {
+		if fr.caller != nil || fr.fn != K {
+			return true
+		}
+		if !reach[pred.Index] || c0.edges[edge{pred.Index, blk.Index}] {
+			return false
+		}
+		if phi, _ := phiIf(pred); phi != nil {
+			live := false
+			for i, pp := range pred.Preds {
+				if !reach[pp.Index] || c0.edges[edge{pp.Index, pred.Index}] || c0.triples[[3]int{pp.Index, pred.Index, blk.Index}] {
+					continue
+				}
+				if forced, ok := constBoolOutcome(pred, i); ok && forced != blk {
+					continue
+				}
+				live = true
+			}
+			return live
+		}
+		return true
+	}
+	texts, ok := ev.eval(q, topFrame(K))
+	if !ok {
+		return nil
+	}
+	var out []*sqlp.Stmt
+	for _, t := range texts {
+		if st, err := sqlp.Parse(t); err == nil {
+			out = append(out, st)
+		}
+	}
+	return out
+}
+
 func (m *Model) sqlZeroCasUnguarded(s *SQLSite, K *ssa.Function, c0 *cut, isP func(ssa.Value) bool) []string {
 	if len(c0.edges) == 0 && len(c0.triples) == 0 {
 		return nil // the closure never distinguishes the zero CAS: nothing to assume
